@@ -567,6 +567,26 @@ func genParseMain(args []string) {
 			}
 		}
 	}
+	// quoted member names: every sequence of up to three pieces -- the other quote, the own quote escaped, a backslash
+	// pair, raw control characters, escapes (valid, truncated, lone surrogate), a plain letter -- in both quote styles
+	pieces := []string{`"`, `'`, `\\`, "\t", "\n", "a", `\u0041`, `\uD834`, `\u00`, `\`, "\x01", `\n`}
+	for _, q := range []string{"'", `"`} {
+		esc := func(pc string) string {
+			if pc == q {
+				return `\` + q // the own quote has to be escaped
+			}
+			return pc
+		}
+		for _, a := range pieces {
+			emit("$["+q+esc(a)+q+"]", "quoted-name-matrix")
+			for _, b := range pieces {
+				emit("$["+q+esc(a)+esc(b)+q+"]", "quoted-name-matrix")
+				for _, c := range pieces {
+					emit("$["+q+esc(a)+esc(b)+esc(c)+q+"]", "quoted-name-matrix")
+				}
+			}
+		}
+	}
 	// regular-expression syntax: what regexp.Compile accepts is accepted, what it rejects is an invalid argument --
 	// prefixes x cores x suffixes, valid and invalid, lazy and greedy quantifiers, escapes at either end
 	for _, pre := range []string{"", "^", ".*", ".*?", ".+?", "(?i)", "(?s).*", `\.*`, ".?"} {
